@@ -481,6 +481,28 @@ impl<T: Types> RaftLog<T> {
         self.state_machine.payload_cache.write().unwrap().drain_evictable();
     }
 
+    /// Verification accessor: the resident cache entries `(log id, payload
+    /// size)`, the evictable boundary and the running size/len counters, all
+    /// taken under one read lock.
+    #[cfg(raft_log_verif)]
+    #[allow(clippy::type_complexity)]
+    pub fn verif_cache_snapshot(
+        &self,
+    ) -> (Vec<(T::LogId, u64)>, Option<T::LogId>, usize, usize) {
+        let cache = self.state_machine.payload_cache.read().unwrap();
+        let resident = cache
+            .cache
+            .iter()
+            .map(|(k, v)| (k.clone(), T::payload_size(v)))
+            .collect();
+        (
+            resident,
+            cache.last_evictable().cloned(),
+            cache.total_size(),
+            cache.item_count(),
+        )
+    }
+
     fn get_log_id(&self, index: u64) -> Result<T::LogId, RaftLogStateError<T>> {
         let entry = self
             .state_machine
